@@ -4,7 +4,7 @@
 From Coq Require Import List ZArith Bool Arith Lia Permutation Sorted.
 Import ListNotations.
 From Verif Require Import Val Index.
-From Verif Require Export IndexOrder IndexSort IndexDigest IndexGroups IndexParse.
+From Verif Require Export IndexOrder IndexSort IndexDigest IndexGroups IndexParse IndexDocument IndexColumns.
 Local Open Scope Z_scope.
 
 (* the order on collation keys that run_case uses (sequences of integers, compared like Python tuples / strings) *)
@@ -79,3 +79,26 @@ Proof.
   split; [|split; vm_compute; reflexivity].
   repeat (apply Forall_cons; [unfold wf; simpl; lia|]). apply Forall_nil.
 Qed.
+
+(* a document of three \index commands:  b ,  B|see{x} ,  b@\textbf{b}!y  -- what it spells is well formed, and its index *)
+Definition doc_example : list ientry :=
+  [mkI [mkLevel None [L 98]] None;
+   mkI [mkLevel None [L 66]] (Some (s_see, [(1, [123]); L 120; (2, [125])]));
+   mkI [mkLevel (Some [L 98]) [(0, [116;101;120;116;98;102]); (1, [123]); L 98; (2, [125])]; mkLevel None [L 121]] None].
+
+Lemma doc_example_ok :
+  Forall ispec_ok doc_example /\
+  digest ck_lower zs_eqb zs_lt tx_c src_c (entries_of tx_c doc_example) =
+    Some [Node [L 66] [66] [(1, 1)] [];
+          Node [(0, [116;101;120;116;98;102]); (1, [123]); L 98; (2, [125])] [98] [] [Node [L 121] [121] [(0, 2)] []];
+          Node [L 98] [98] [(0, 0)] []].
+Proof.
+  split; [|vm_compute; reflexivity].
+  repeat (apply Forall_cons; [split; [discriminate | simpl; auto]|]); [| apply Forall_nil].
+  repeat split; try discriminate; repeat (apply Forall_cons; [reflexivity|]); apply Forall_nil.
+Qed.
+
+Lemma balance_example :
+  split_columns (fun x : Z => x) [1; 1; 3; 1; 2; 2] 3 = Some [[1; 1; 3]; [1; 2]; [2]] /\
+  Z.quot (fold_left (fun a it => a + it) [1; 1; 3; 1; 2; 2] 0) 3 = 3.
+Proof. vm_compute. split; reflexivity. Qed.
